@@ -331,6 +331,13 @@ func Build(arr Arr, l Layout, mask []bool) (b *Built, err error) {
 	if mask != nil {
 		rootMask = make([]bool, n)
 	}
+	if mask != nil {
+		// the parent's elements outside the view are masked here and there as well: whatever walks the
+		// view's storage window instead of the view meets them
+		for j := range rootMask {
+			rootMask[j] = j%3 != 1
+		}
+	}
 	for k := range arr.E {
 		j := idx.E[k].(int)
 		b.Idx[k] = j
